@@ -580,6 +580,7 @@ package zapcore
 //@ func (*zapcore.CheckedEntry).Write
 //@   props C06 C10 C04
 //@   flags nopanic propagates-panics
+//@   modifies $user, ce.dirty
 //@   requires ce != nil ==> forall i int :: 0 <= i && i < len(ce.cores) ==> ce.cores[i] != nil
 //@   track W = invoke zapcore.Core.Write
 //@   track H = invoke zapcore.CheckWriteHook.OnWrite
@@ -633,3 +634,17 @@ package zapcore
 //@   ensures ENC.ret1[0] == nil ==> #WR == 1 && WR.recv[0] == old(c.out) && #BY == 1 && BY.recv[0] == ENC.ret0[0] && WR.arg0[0] == BY.ret0[0] && #FR == 1 && FR.recv[0] == ENC.ret0[0] && WR.ts[0] < FR.ts[0]
 //@   ensures ENC.ret1[0] == nil && WR.ret1[0] != nil ==> result == WR.ret1[0] && #SY == 0
 //@   ensures ENC.ret1[0] == nil && WR.ret1[0] == nil ==> result == nil && (#SY == 1 <==> ent.Level > ErrorLevel) && #SY <= 1 && (#SY == 1 ==> SY.recv[0] == c && WR.ts[0] < SY.ts[0])
+
+// ---------------------------------------------------------------------------
+// field.go: Field.Equals (C03)
+
+// Well-formed fields: what the constructors of package zap produce (the payload slot holds a
+// value of the type the tag announces).
+//@ spec func wfField(f zapcore.Field) bool = 1 <= f.Type && f.Type <= 28 && (f.Type == 3 || f.Type == 5 ==> typeof(f.Interface) == type([]byte)) && (f.Type == 6 ==> typeof(f.Interface) == type(complex128)) && (f.Type == 7 ==> typeof(f.Interface) == type(complex64)) && (f.Type == 17 ==> typeof(f.Interface) == type(time.Time)) && (f.Type == 16 ==> f.Interface == nil || typeof(f.Interface) == type(*time.Location)) && (f.Type == 4 || (f.Type >= 8 && f.Type <= 15) || (f.Type >= 18 && f.Type <= 22) || f.Type == 24 || f.Type == 27 ==> f.Interface == nil)
+
+//@ func (zapcore.Field).Equals
+//@   props C03
+//@   flags nopanic
+//@   requires wfField(f) && wfField(other)
+//@   modifies nothing
+//@   ensures result ==> f.Type == other.Type && f.Key == other.Key
